@@ -79,16 +79,82 @@ def derive(rng: random.Random, A: dict, mode: str):
             k = [fresh_key() for _ in range(rng.randint(1, 3))]
             k = [x for x in k if x is not None]
             if k:
-                tt = [b["t"][0], b["t"][1] - (DAY // 2 if b["t"][0] == "time" else 0)]
+                tt = [b["t"][0], b["t"][1] - (DAY // 2 if b["t"][0] in ("time", "tz") else 0)]
                 batches.append({"t": tt, "sims": [relabel(new_sim()) for _ in k], "keys": k, "get": None})
         if mode == "mixed" and rng.random() < 0.15:
             continue                                    # this batch does not exist in B at all
-        batches.append({"t": list(b["t"]), "sims": [s for s, _ in rows], "keys": [k for _, k in rows], "get": None})
-    return dict(A, batches=batches)
+        nb = {"t": list(b["t"]), "sims": [s for s, _ in rows], "keys": [k for _, k in rows], "get": None}
+        # the frame arrives differently in B (LESSONS.md 2, 3): other column order, extra columns, index kind / name
+        fr = {}
+        if len(types) > 1 and rng.random() < 0.4:
+            order = list(range(len(types)))
+            rng.shuffle(order)
+            fr["order"] = order
+        if rng.random() < 0.3:
+            fr["extra"] = True
+        if rng.random() < 0.3:
+            fr["index_name"] = rng.choice(["foo", "simulant_index"])
+        if fr:
+            nb["frame"] = fr
+        batches.append(nb)
+    B = dict(A, batches=batches)
+    r = rng.random()
+    if r < 0.25:
+        B.pop("names", None)                                   # B under the default names
+    elif r < 0.5:
+        names = [f"col_{i}" for i in range(len(types))]
+        names[rng.randrange(len(types))] = "simulant_index"       # F31: the key column named like IndexMap's own level, in B (too)
+        B["names"] = names
+    if mode in ("superset", "mixed") or rng.random() < 0.5:
+        B.pop("dtypes", None)          # B's columns are int64 / float64 whatever A's were: the dtype must not matter either
+    return B
 
 
 def total_keys(h):
     return sum(len(b["keys"]) for b in h["batches"])
+
+
+# ------------------------------------------------------------------ a third run: the key all alone
+
+def solo_candidates(histA, histB, limit=3):
+    """shared keys registered at the same clock time in both histories (decided from the case alone), at most `limit`"""
+    types = histA["cols"]
+    where = {}
+    for h, side in ((histA, "a"), (histB, "b")):
+        for b in h["batches"]:
+            if b.get("bad"):
+                continue
+            for k in b["keys"]:
+                where.setdefault(ic.canon_key(types, k), {}).setdefault(side, []).append((tuple(b["t"]), k))
+    out = []
+    for ck in sorted(where, key=str):
+        w = where[ck]
+        if len(w.get("a", [])) == 1 and len(w.get("b", [])) == 1 and w["a"][0][0] == w["b"][0][0]:
+            out.append((list(w["a"][0][0]), w["a"][0][1]))
+    step = max(1, len(out) // limit)
+    return out[::step][:limit]
+
+
+def run_solo(histA, histB):
+    """Register each candidate key ALONE, in a fresh real IndexMap of the same size, at the same clock time, under an
+    unrelated label: nobody is registered with or before it, so the exception in the property cannot apply and the
+    position it gets is its initial hashed position by definition – obtained through the public `update` /
+    `__getitem__`, not through the private `_hash` the other clauses classify with (LESSONS.md 1)."""
+    impl.load()
+    import pandas as pd
+    from vivarium.framework.randomness.index_map import IndexMap
+    out = []
+    names = ic.names_of(histA)
+    for n, (t, k) in enumerate(solo_candidates(histA, histB)):
+        im = IndexMap(list(names), size=histA["size"])
+        df = ic.mk_frame(histA["cols"], histA.get("tunit", "ns"), [777 + n], [k], names=names)
+        try:
+            im.update(df, ic.mk_salt(t, histA.get("tunit", "ns")))
+            pos = ic._as_pos(list(im[pd.Index([777 + n])])[0])
+        except Exception as e:  # noqa: BLE001
+            pos = ic.outcome_of(e)
+        out.append({"t": t, "key": k, "pos": pos})
+    return out
 
 
 # ------------------------------------------------------------------ the property on two observed runs
@@ -102,20 +168,35 @@ def registrations(hist, recs):
             continue
         occupied = {p for _, p in (rec["before"] or [])}
         raws = rec["raw"]
-        after = dict((s, p) for s, p in rec["map"])
         for i, (s, k) in enumerate(zip(b["sims"], b["keys"])):
             r = raws[i]
             unique = r not in occupied and raws.count(r) == 1
             out[ic.canon_key(types, k)] = {"t": tuple(b["t"]), "raw": r, "unique": unique, "sim": s}
-    final = dict((s, p) for s, p in (recs[-1]["map"] or [])) if recs else {}
+    last = recs[-1] if recs else {}
+    final = dict((s, p) for s, p in (last.get("pos") if isinstance(last.get("pos"), list) else last.get("map") or []))
     for v in out.values():
         v["pos"] = final.get(v["sim"])
     return out
 
 
-def oracle_pair(histA, recsA, histB, recsB):
+def oracle_pair(histA, recsA, histB, recsB, solo=()):
     fails = []
     ra, rb = registrations(histA, recsA), registrations(histB, recsB)
+    for so in solo:
+        ck = ic.canon_key(histA["cols"], so["key"])
+        if not isinstance(so["pos"], int) or not 0 <= so["pos"] < histA["size"]:
+            fails.append({"sig": "solo-registration-failed", "msg": f"key {so['key']} registered alone at {so['t']}: {so['pos']}"})
+            continue
+        for side, reg in (("A", ra), ("B", rb)):
+            r = reg.get(ck)
+            if r is None or list(r["t"]) != list(so["t"]):
+                continue
+            if r["raw"] != so["pos"]:
+                fails.append({"sig": "first-hash-is-not-the-solo-position",
+                              "msg": f"run {side}: key {so['key']} at {so['t']}: registered alone it sits at {so['pos']}, the first hash used to tell colliding from non-colliding keys is {r['raw']}"})
+            elif r["unique"] and r["pos"] != so["pos"]:
+                fails.append({"sig": "position-differs-from-solo-registration",
+                              "msg": f"run {side}: key {so['key']} at {so['t']} (simulant {r['sim']}): position {r['pos']}, registered alone in a map of the same size it sits at {so['pos']}, and no simulant registered with or before it hashes there"})
     n_shared = n_free = 0
     for k in ra.keys() & rb.keys():
         a, b = ra[k], rb[k]
@@ -136,15 +217,31 @@ def oracle_pair(histA, recsA, histB, recsB):
 
 def run_sim(case, which):
     """One simulation of the pair. Newborn number j of step s carries the key (s + j/64 [, creation time][, 1000*s + j])
-    whatever its index label; the order in which the keys are dealt inside a batch is a case parameter."""
+    whatever its index label; the order in which the keys are dealt inside a batch is a case parameter. Per run
+    (LESSONS.md 2, 5, 7, 10): who draws (the registering component in `time_step`, or another component in
+    `time_step__cleanup`), draws inside the initializer right after registration, registration in two calls, the whole
+    frame (extra columns, other column order than key_columns) handed to register_simulants; draws are requested for
+    every label ever created, newest first."""
     impl.load()
     import pandas as pd
     from vivarium import Component
     from vivarium.framework.engine import SimulationContext
 
-    keycols = case["keycols"]
+    alias = {"k3": "simulant_index"} if (case.get("f31") or [False, False])[which] else {}      # F31, per run
+    keycols = [alias.get(c, c) for c in case["keycols"]]
     births = case["births"][which]
     perm_seed = case["perm"][which]
+    var = (case.get("variant") or [{}, {}])[which]
+    created = []
+    draws = {}
+    clock = []
+
+    def record(streams, index, tag):
+        now = str(clock[0]())
+        for i, st in enumerate(streams):
+            dr = st.get_draw(index)
+            for sim in index:
+                draws.setdefault(int(sim), []).append([now, f"{tag}{i}", float(dr[sim])])
 
     class Pop(Component):
         @property
@@ -153,14 +250,15 @@ def run_sim(case, which):
 
         @property
         def columns_created(self):
-            return ["k1", "k2", "k3"]
+            return ["k1", "k2", alias.get("k3", "k3")]
 
         def setup(self, b):
-            self.streams = [b.randomness.get_stream(f"d{i}") for i in range(3)]
+            self.streams = [] if var.get("drawer") else [b.randomness.get_stream(f"d{i}") for i in range(3)]
+            self.at_creation = [b.randomness.get_stream(f"c{i}") for i in range(2)]
             self.reg = b.randomness.register_simulants
             self.creator = b.population.get_simulant_creator()
+            clock.append(b.time.clock())
             self.step_no = 0
-            self.draws = {}
 
         def on_initialize_simulants(self, d):
             n = len(d.index)
@@ -170,27 +268,47 @@ def run_sim(case, which):
             if perm_seed is not None:
                 random.Random(perm_seed * 1000 + self.step_no).shuffle(js)
             s = self.step_no
-            df = pd.DataFrame({"k1": [s + j / 64 for j in js], "k2": d.creation_time, "k3": [1000 * s + j for j in js]}, index=d.index)
-            self.reg(df[keycols])
-            self.population_view.update(df)
+            df = pd.DataFrame({alias.get("k3", "k3"): [1000 * s + j for j in js], "junk": "x", "k1": [s + j / 64 for j in js],
+                               "k2": d.creation_time}, index=d.index)
+            parts = [df.iloc[: n // 2], df.iloc[n // 2:]] if var.get("split") and n > 1 else [df]
+            for part in parts:
+                self.reg(part if var.get("whole_frame") else part[keycols])
+            self.population_view.update(df[["k1", "k2", alias.get("k3", "k3")]])
+            created.extend(int(x) for x in d.index)
+            if var.get("draw_at_creation"):
+                record(self.at_creation, d.index, "c")
 
         def on_time_step(self, e):
             self.step_no += 1
             if births:
                 self.creator(births)
-            pop = self.population_view.get(e.index)
-            for i, st in enumerate(self.streams):
-                dr = st.get_draw(pop.index)
-                for sim in pop.index:
-                    self.draws.setdefault(int(sim), []).append([str(e.time), i, float(dr[sim])])
+            if self.streams:
+                record(self.streams, pd.Index(created[::-1]), "d")
+
+    class Drawer(Component):
+        @property
+        def name(self):
+            return "drawer"
+
+        def setup(self, b):
+            self.streams = [b.randomness.get_stream(f"d{i}") for i in range(3)]
+
+        def on_time_step_cleanup(self, e):
+            record(self.streams, pd.Index(created[::-1]), "d")
 
     SimulationContext._clear_context_cache()
-    p = Pop()
-    sim = SimulationContext(components=[p], configuration={
-        "population": {"population_size": case["pop"][which]},
-        "randomness": {"key_columns": keycols, "map_size": case["map_size"], "random_seed": case["seed"]},
-        "time": {"start": {"year": 2020, "month": 1, "day": 1}, "end": {"year": 2020, "month": 1, "day": 1 + case["steps"]},
-                 "step_size": 1}}, logging_verbosity=0)
+    conf = {"population": {"population_size": case["pop"][which]},
+            "randomness": {"key_columns": keycols, "map_size": case["map_size"], "random_seed": case["seed"]}}
+    kw = {}
+    if case.get("clock") == "simple":
+        conf["time"] = {"start": 0, "end": case["steps"], "step_size": 1}
+        kw["plugin_configuration"] = {"required": {"clock": {"controller": "vivarium.framework.time.SimpleClock",
+                                                             "builder_interface": "vivarium.framework.time.TimeInterface"}}}
+    else:
+        conf["time"] = {"start": {"year": 2020, "month": 1, "day": 1}, "end": {"year": 2020, "month": 1, "day": 1 + case["steps"]},
+                        "step_size": 1}
+    sim = SimulationContext(components=[Pop()] + ([Drawer()] if var.get("drawer") else []), configuration=conf,
+                            logging_verbosity=0, **kw)
     sim.setup()
     im = sim._randomness._key_mapping
     log = []
@@ -204,7 +322,8 @@ def run_sim(case, which):
         crash = ic.outcome_of(e)
     types = log[0]["types"] if log else []
     hist = {"size": len(im), "cols": types, "tunit": "ns", "batches": [x["batch"] for x in log]}
-    return {"hist": hist, "batches": [x["rec"] for x in log], "draws": {str(k): v for k, v in p.draws.items()}, "crash": crash}
+    return {"hist": hist, "batches": [x["rec"] for x in log], "draws": {str(k): v for k, v in draws.items()}, "crash": crash,
+            "expected_size": max(case["map_size"], 10 * case["pop"][which])}
 
 
 def oracle_sims(obs):
@@ -212,8 +331,11 @@ def oracle_sims(obs):
     for side in (A, B):
         if side.get("crash"):
             return [{"sig": "simulation-crashed", "msg": f"a simulation with unique keys stopped with {side['crash']}"}], 0, 0
+    for side in (A, B):
+        if side["hist"]["size"] != side["expected_size"]:      # from the configuration (RandomnessManager.setup's rule)
+            return [{"sig": "block-size-rule", "msg": f"block size {side['hist']['size']}, configuration says {side['expected_size']}"}], 0, 0
     if A["hist"]["size"] != B["hist"]["size"]:
-        return [{"sig": "harness-pair-size", "msg": "the two simulations ended up with different block sizes"}], 0, 0
+        return [{"sig": "harness-pair-size", "msg": "the two simulations were configured with different block sizes"}], 0, 0
     fails, n_shared, n_free = oracle_pair(A["hist"], A["batches"], B["hist"], B["batches"])
     ra, rb = registrations(A["hist"], A["batches"]), registrations(B["hist"], B["batches"])
     for k in ra.keys() & rb.keys():
@@ -267,6 +389,13 @@ class C04(Prop):
             # the key exists in both runs but is registered at different clock times: nothing is claimed
             {"kind": "pair", "mode": "other-time", "a": A, "b": dict(A, batches=[dict(A["batches"][0], t=["time", T0 + DAY])])},
         ]
+        # F31: the key column is called 'simulant_index' in run A, in run B, in both
+        An = dict(A, names=["simulant_index"])
+        Bn = dict(A, names=["simulant_index"], batches=[dict(A["batches"][0], sims=[40, 7, 19, 3, 88, 5], keys=[[4], [6], [1], [5], [2], [3]])])
+        out += [{"kind": "pair", "mode": "relabel", "a": An, "b": out[1]["b"]}, {"kind": "pair", "mode": "permute", "a": A, "b": Bn},
+                {"kind": "pair", "mode": "permute", "a": An, "b": Bn}]
+        out.append({"kind": "sims", "keycols": ["k3", "k1"], "pop": [5, 3], "births": [1, 2], "steps": 3, "map_size": 59, "seed": 5,
+                    "perm": [None, 4], "f31": [True, False]})
         out.append({"kind": "sims", "keycols": ["k1"], "pop": [6, 6], "births": [1, 3], "steps": 5, "map_size": 61, "seed": 3, "perm": [None, None]})
         out.append({"kind": "sims", "keycols": ["k1"], "pop": [6, 6], "births": [1, 3], "steps": 5, "map_size": 1009, "seed": 3, "perm": [None, 5]})
         out.append({"kind": "sims", "keycols": ["k3", "k2"], "pop": [4, 9], "births": [2, 2], "steps": 3, "map_size": 101, "seed": 0, "perm": [2, None]})
@@ -282,24 +411,36 @@ class C04(Prop):
             steps = rng.randint(1, 5)
             need = max(10 * max(pop) + 1, max(pop) + max(births) * steps + 2)
             lo = need if rng.random() < 0.7 else need * 4
+            var = [{k: rng.random() < 0.5 for k in ("split", "whole_frame", "draw_at_creation", "drawer")} for _ in (0, 1)]
+            if rng.random() < 0.5:
+                var[1]["draw_at_creation"] = var[0]["draw_at_creation"] = True      # comparable draws inside the initializer
             return {"kind": "sims", "keycols": ncols_choice, "pop": pop, "births": births, "steps": steps,
                     "map_size": rng.choice(ic.coprime_sizes(len(ncols_choice), lo, lo + 40)), "seed": rng.randint(0, 9),
-                    "perm": [rng.choice([None, rng.randint(0, 99)]), rng.choice([None, rng.randint(0, 99)])]}
+                    "perm": [rng.choice([None, rng.randint(0, 99)]), rng.choice([None, rng.randint(0, 99)])],
+                    "clock": rng.choice(["datetime", "datetime", "simple"]), "variant": var,
+                    "f31": [("k3" in ncols_choice and rng.random() < 0.5) for _ in (0, 1)]}
         mode = rng.choice(["permute", "relabel", "relabel-affine", "subset", "superset", "mixed", "mixed", "mixed"])
+        # the shape of history A (LESSONS.md 9): plain, a dense first batch followed by single newcomers, a small block filled
+        # (almost) completely, or aimed collision chains with bystanders exactly where the re-hashes land (seeded C04-1)
+        shape = rng.choice(["plain"] * 4 + ["trickle"] * 2 + ["chain"] * 3 + (["dense"] if mode in ("permute", "relabel", "relabel-affine", "subset") else []))
         # single key columns get extra weight: that is where key/position re-attachment went wrong (F4)
-        types = [rng.choice(["int", "int", "float", "time"])] if rng.random() < 0.45 else None
+        types = [rng.choice(["int", "int", "float", "time"])] if rng.random() < 0.45 and shape != "chain" else None
+        room = 1.0 if shape == "dense" else 0.85
         while True:
-            A = c03.gen_history(rng, tier, dup_rate=0.05 if mode == "mixed" else 0.0, types=types,
-                                size=rng.choice(ic.coprime_sizes(6, 5, 110 if tier == "quick" else 400)),   # coprime for 1, 2 and 3 columns
-                                n_batches=rng.randint(1, 4))
+            size = None if shape == "dense" else rng.choice(ic.coprime_sizes(6, 8 if shape == "chain" else 5, (60 if shape == "chain" else 110) if tier == "quick" else 400))
+            A = c03.gen_history(rng, tier, dup_rate=0.05 if mode == "mixed" else 0.0, types=types, size=size,   # sizes coprime for 1, 2 and 3 columns
+                                n_batches=None if shape in ("trickle", "dense") else rng.randint(1, 4), mode=shape)
+            if shape == "dense" and ic.math.gcd(A["size"], 6 * ic.SPREAD) != 1:
+                continue
             for b in A["batches"]:
                 b["get"] = None
+                b.pop("get_kind", None)
             B = derive(rng, A, mode)
-            if max(total_keys(A), total_keys(B)) <= 0.85 * A["size"]:      # the block must not fill up (F11)
+            if max(total_keys(A), total_keys(B)) <= room * A["size"]:      # the block must not overflow (F11)
                 break
         A.pop("kind", None)
         B.pop("kind", None)
-        return {"kind": "pair", "mode": mode, "a": A, "b": B}
+        return {"kind": "pair", "mode": mode, "shape": shape, "a": A, "b": B}
 
     def shrink(self, case):
         if case["kind"] != "pair":
@@ -331,7 +472,8 @@ class C04(Prop):
             return {"a": run_sim(case, 0), "b": run_sim(case, 1)}
         # hash probes: run A only and few (the hash arithmetic is C03's business; here the first hashes matter)
         return {"a": {"hist": case["a"], "batches": ic.run_history(case["a"], hash_probe=2)},
-                "b": {"hist": case["b"], "batches": ic.run_history(case["b"], hash_probe=0)}}
+                "b": {"hist": case["b"], "batches": ic.run_history(case["b"], hash_probe=0)},
+                "solo": run_solo(case["a"], case["b"])}
 
     def _lines(self, obs):
         la, pa = ic.history_lines(obs["a"]["hist"], obs["a"]["batches"], name="imap@a")
@@ -351,13 +493,13 @@ class C04(Prop):
         if case["kind"] == "sims":
             fails = oracle_sims(obs)[0]
         else:
-            fails = oracle_pair(obs["a"]["hist"], obs["a"]["batches"], obs["b"]["hist"], obs["b"]["batches"])[0]
+            fails = oracle_pair(obs["a"]["hist"], obs["a"]["batches"], obs["b"]["hist"], obs["b"]["batches"], obs.get("solo") or ())[0]
             if case.get("mode") == "identical" and obs["a"]["batches"] and obs["a"]["batches"][-1]["map"] != obs["b"]["batches"][-1]["map"]:
                 fails.append({"sig": "identical-runs-differ", "msg": "the same history gave two different maps"})
         # each run on its own must satisfy C03 as well (a misattached key shows up there as `key-misattached`)
         for side in ("a", "b"):
             for f in c03.oracle_history(obs[side]["hist"], obs[side]["batches"], label=f"run {side.upper()}: "):
-                if f["sig"] in ("key-misattached", "position-missing"):
+                if f["sig"] in ("key-misattached", "position-missing", "timeout"):
                     fails.append(f)
         return fails
 
@@ -381,8 +523,35 @@ class C04(Prop):
             t.append("shared-colliding(exempt)")
         for s in ("a", "b"):
             tg = c03.history_tags(obs[s]["hist"], obs[s]["batches"])
-            t += [x for x in ("rehashed", "collision-with-old", "collision-in-batch", "update:err:randomness") if x in tg]
+            t += [x for x in ("rehashed", "collision-with-old", "collision-in-batch", "update:err:randomness", "loop-passes:2",
+                              "loop-passes:3+", "noncolliding-next-to-rehashed", "collision-with-old-only(no-internal)",
+                              "block-exactly-full", "labels-interleave", "frame:order", "frame:extra") if x in tg]
+            t += [x for x in tg if x.startswith(("dtype:", "clock:"))]
+        for side in ("a", "b"):
+            if "simulant_index" in (obs[side]["hist"].get("names") or []):
+                t.append(f"simulant_index-column:run-{side.upper()}")
         if case["kind"] == "sims":
+            t += [f"simulant_index-column:run-{'AB'[w]}" for w in (0, 1) if (case.get("f31") or [False, False])[w]]
+        if case["kind"] == "pair":
+            t.append("shape:" + case.get("shape", "boundary"))
+            solo = obs.get("solo") or []
+            t.append(f"solo-registrations:{len(solo)}")
+            ra = registrations(obs["a"]["hist"], obs["a"]["batches"])
+            if any(ra.get(ic.canon_key(obs["a"]["hist"]["cols"], so["key"]), {}).get("unique") for so in solo):
+                t.append("solo-vs-noncolliding-compared")
+            if (obs["a"]["hist"].get("dtypes") or None) != (obs["b"]["hist"].get("dtypes") or None):
+                t.append("dtypes-differ-between-runs")
+        if case["kind"] == "sims":
+            for w in (0, 1):
+                t += [f"sims:{k}" for k, v in (case.get("variant") or [{}, {}])[w].items() if v]
+            t.append("sims-clock:" + case.get("clock", "datetime"))
+            n_cmp = 0
+            ra, rb = registrations(obs["a"]["hist"], obs["a"]["batches"]), registrations(obs["b"]["hist"], obs["b"]["batches"])
+            for k in ra.keys() & rb.keys():
+                da = {(x[0], x[1]) for x in obs["a"]["draws"].get(str(ra[k]["sim"]), [])}
+                db = {(x[0], x[1]) for x in obs["b"]["draws"].get(str(rb[k]["sim"]), [])}
+                n_cmp += len(da & db)
+            t.append("sims-draws-compared:" + ("0" if n_cmp == 0 else "1-50" if n_cmp <= 50 else "51+"))
             t.append("sims-births-differ" if case["births"][0] != case["births"][1] else "sims-births-equal")
             t.append("sims-pop-differ" if case["pop"][0] != case["pop"][1] else "sims-pop-equal")
         return t
